@@ -816,6 +816,124 @@ theorem printable_iff_expr (d : Gen.D) (e : Expr) : (∃ s, prE d e = .ok s) ↔
   · intro hb
     exact OkOr.total (res_E (notPrintable_clean d) e hb)
 
+/-! ### statements: the refusal is in the library's parse-error family; exactly which statements are printed -/
+
+/-- statement-level ill-formedness (missing WITH object, INSERT type outside the table) — and the DDL whose column
+definitions / partition this theorem does not analyse (CREATE TABLE for MySQL / Hive, ANALYZE … PARTITION for Hive,
+ALTER TABLE with a column definition): flagged, i.e. excluded -/
+def stmtIll (d : Gen.D) : Stmt → Bool
+  | .insertValues h _ => h.withs.isNone || unknownName Gen.insertTypes h.type
+  | .insertSelect h _ => h.withs.isNone || unknownName Gen.insertTypes h.type
+  | .update ws _ _ _ _ _ => ws.isNone
+  | .createTable _ => d == .MYSQL || d == .HIVE
+  | .analyze _ p _ _ _ => d == .HIVE && p.isSome
+  | .alter _ ops => ops.any hasColumnDef
+  | _ => false
+
+/-- the statement-level refusals of dialect `d` -/
+def stmtRefused (d : Gen.D) (st : Stmt) : Bool :=
+  (!insertOverwriteOk d && usesInsertOverwrite st) || (!analyzeOk d && usesAnalyze st) || (!createTableOk d && usesCreateTable st)
+
+theorem headGuard_res (d : Gen.D) (ty : String) : OkOr (· = .notSupported) (headGuard d ty) := by
+  unfold headGuard
+  split
+  · exact OkOr.error rfl
+  · exact OkOr.ok _
+
+theorem alter_noColumnDef (ops : List AlterOp) (h : ops.any hasColumnDef = false) :
+    ∀ o ∈ ops, ∀ c, o ≠ .add (.col c) ∧ o ≠ .modify (.col c) ∧ ∀ f, o ≠ .change f (.col c) := by
+  intro o ho c
+  have := (List.any_eq_false.1 h) o ho
+  refine ⟨?_, ?_, ?_⟩
+  · rintro rfl; simp [hasColumnDef] at this
+  · rintro rfl; simp [hasColumnDef] at this
+  · rintro f rfl; simp [hasColumnDef] at this
+
+theorem inFamily_notSupported : ∀ e : Err, e = .notSupported → e.inFamily = true := by
+  rintro _ rfl; rfl
+
+theorem stmtClean_family (d : Gen.D) (st : Stmt) (h : stmtIll d st = false) : StmtClean d (fun e => e.inFamily = true) st := by
+  cases st <;> simp only [StmtClean]
+  case insertValues hd vs =>
+    simp only [stmtIll, Bool.or_eq_false_iff] at h
+    exact ⟨by intro hn; rw [hn] at h; simp at h, (headGuard_res d _).mono inFamily_notSupported, okOr_of_ok (wordsSrc_ok _ _ h.2)⟩
+  case insertSelect hd q =>
+    simp only [stmtIll, Bool.or_eq_false_iff] at h
+    exact ⟨by intro hn; rw [hn] at h; simp at h, (headGuard_res d _).mono inFamily_notSupported, okOr_of_ok (wordsSrc_ok _ _ h.2)⟩
+  case update ws t sets wh ob lm =>
+    intro hn; rw [hn] at h; simp [stmtIll] at h
+  case createTable c =>
+    cases d <;> first | (simp [stmtIll] at h; done) | exact OkOr.error (e := Err.parse) rfl
+  case analyze t p fc cm ns =>
+    cases d
+    case HIVE =>
+      cases p with
+      | some p => simp [stmtIll] at h
+      | none => exact OkOr.ok _
+    case MYSQL => exact OkOr.ok _
+    all_goals exact OkOr.error (e := Err.notSupported) rfl
+  case alter t ops => exact alter_noColumnDef ops h
+
+theorem stmtClean_total (d : Gen.D) (st : Stmt) (h : stmtIll d st = false) (hr : stmtRefused d st = false) :
+    StmtClean d (fun _ => False) st := by
+  simp only [stmtRefused, Bool.or_eq_false_iff, Bool.and_eq_false_iff, Bool.not_eq_false'] at hr
+  obtain ⟨⟨hio, han⟩, hct⟩ := hr
+  have hg : ∀ hd : InsertHead, (insertOverwriteOk d = true ∨ (hd.type == "INSERT_OVERWRITE") = false) → OkOr (fun _ => False) (headGuard d hd.type) := by
+    intro hd hh
+    have : (hd.type == "INSERT_OVERWRITE" && !(d == .HIVE || d == .DEFAULT)) = false := by
+      rcases hh with hh | hh
+      · have : (d == .HIVE || d == .DEFAULT) = true := hh
+        rw [this]; simp
+      · rw [hh]; simp
+    unfold headGuard
+    simp only [this, Bool.false_eq_true, if_false]
+    exact OkOr.ok _
+  cases st <;> simp only [StmtClean]
+  case insertValues hd vs =>
+    simp only [stmtIll, Bool.or_eq_false_iff] at h
+    exact ⟨by intro hn; rw [hn] at h; simp at h, hg hd hio, okOr_of_ok (wordsSrc_ok _ _ h.2)⟩
+  case insertSelect hd q =>
+    simp only [stmtIll, Bool.or_eq_false_iff] at h
+    exact ⟨by intro hn; rw [hn] at h; simp at h, hg hd hio, okOr_of_ok (wordsSrc_ok _ _ h.2)⟩
+  case update ws t sets wh ob lm =>
+    intro hn; rw [hn] at h; simp [stmtIll] at h
+  case createTable c =>
+    exfalso
+    cases d <;> simp [stmtIll, createTableOk, usesCreateTable] at h hct
+  case analyze t p fc cm ns =>
+    cases d
+    case HIVE =>
+      cases p with
+      | some p => simp [stmtIll] at h
+      | none => exact OkOr.ok _
+    case MYSQL => exact OkOr.ok _
+    all_goals (exfalso; simp [analyzeOk, usesAnalyze] at han)
+  case alter t ops => exact alter_noColumnDef ops h
+
+/-- **C13.wellFormed_stmt_text_or_family**: a well-formed statement (outside the DDL exclusions of `stmtIll`) is either
+printed or refused with an error of the library's parse-error family — for every dialect; no foreign exception, no
+other outcome. -/
+theorem wellFormed_stmt_text_or_family (d : Gen.D) (st : Stmt) (h1 : stmtIll d st = false) (h2 : anyStmt illFormed st = false) :
+    (∃ s, prStmt d st = .ok s) ∨ ∃ e, prStmt d st = .error e ∧ e.inFamily = true := by
+  have := res_Stmt ((illFormed_clean d).mono inFamily_notSupported) st (stmtClean_family d st h1) h2
+  cases h : prStmt d st with
+  | ok s => exact .inl ⟨s, rfl⟩
+  | error e => exact .inr ⟨e, rfl, this e h⟩
+
+/-- **C13.refusal_in_family** (DESIGN §8 C13 (c)): a well-formed statement containing, anywhere, a construct the dialect
+lacks is refused with an error of the library's parse-error family. -/
+theorem refusal_in_family (d : Gen.D) (st : Stmt) (h1 : stmtIll d st = false) (h2 : anyStmt illFormed st = false)
+    (hu : unsupported d st = true) : ∃ e, prStmt d st = .error e ∧ e.inFamily = true := by
+  rcases wellFormed_stmt_text_or_family d st h1 h2 with ⟨s, hs⟩ | h
+  · obtain ⟨e, he⟩ := refusal_propagates d st hu; rw [he] at hs; cases hs
+  · exact h
+
+/-- **C13.printable_stmt**: a statement with no ill-formed node, no construct refused by `d` at any depth and no
+statement-level refusal is printed. -/
+theorem printable_stmt (d : Gen.D) (st : Stmt) (h1 : stmtIll d st = false) (h2 : anyStmt (notPrintable d) st = false)
+    (h3 : stmtRefused d st = false) : ∃ s, prStmt d st = .ok s :=
+  OkOr.total (res_Stmt (notPrintable_clean d) st (stmtClean_total d st h1 h3) h2)
+
 end C13
 
 namespace C01
@@ -832,6 +950,14 @@ theorem default_flags_select (x : Select) : (notPrintable .DEFAULT).s x = (illFo
 ill-formed node, no array index and no SORT/DISTRIBUTE/CLUSTER BY clause at any depth — and for no other tree. -/
 theorem print_total_on_default (q : Query) : (∃ s, prQ .DEFAULT q = .ok s) ↔ anyQ (notPrintable .DEFAULT) q = false :=
   printable_iff .DEFAULT q
+
+/-- **C01.print_total_on_default_stmt**: the DEFAULT printer yields text for every statement other than CREATE TABLE /
+ANALYZE TABLE (which it always refuses) / ALTER with a column definition (not analysed here) whose trees have no
+ill-formed node, no array index and no SORT/DISTRIBUTE/CLUSTER BY at any depth — INSERT OVERWRITE, `%` and LATERAL VIEW
+included. -/
+theorem print_total_on_default_stmt (st : Stmt) (h1 : stmtIll .DEFAULT st = false) (h2 : anyStmt (notPrintable .DEFAULT) st = false)
+    (h3 : usesAnalyze st = false) (h4 : usesCreateTable st = false) : ∃ s, prStmt .DEFAULT st = .ok s :=
+  printable_stmt .DEFAULT st h1 h2 (by simp [stmtRefused, h3, h4, insertOverwriteOk])
 
 theorem notPrintable_hive : notPrintable .HIVE = illFormed := by
   have e1 : (notPrintable .HIVE).e = illFormed.e := by funext x; simp [notPrintable, refusedLoc, modOk, indexOk]
@@ -901,6 +1027,11 @@ example : unsupported .HIVE deepIndex = false := by decide
 #guard Gen.allD.all fun d => d == .HIVE || isErr (prStmt d deepIndex) .notSupported
 #guard isOkText (prStmt .HIVE deepIndex) "UPDATE `t` SET `a` = 1 WHERE EXISTS (SELECT 1\nFROM `v`\nWHERE `x`[0] > 1)"
 
+/-- through the theorems (kernel-checked, no evaluation of the printer): refused within the library's error family by
+MySQL, printed by Hive -/
+example : ∃ e, prStmt .MYSQL deepIndex = .error e ∧ e.inFamily = true := refusal_in_family _ _ (by decide) (by decide) (by decide)
+example : ∃ s, prStmt .HIVE deepIndex = .ok s := printable_stmt _ _ (by decide) (by decide) (by decide)
+
 /-- `SELECT a FROM (SELECT b FROM u DISTRIBUTE BY b) AS q`: a Hive-only clause in a derived table -/
 def deepDistribute : Stmt :=
   .select (.single (.mk (some []) false [(.column none "a", none)]
@@ -932,6 +1063,9 @@ example : ∃ err, prStmt .MYSQL overwrite = .error err := refusal_propagates _ 
 #guard Gen.allD.all fun d => d == .HIVE || d == .DEFAULT || isErr (prStmt d overwrite) .notSupported
 #guard isOkText (prStmt .HIVE overwrite) "INSERT OVERWRITE TABLE `t`  SELECT `a`\nFROM `u`"
 #guard isOkText (prStmt .DEFAULT overwrite) "INSERT OVERWRITE `t`  SELECT `a`\nFROM `u`"
+
+example : ∃ s, prStmt .DEFAULT overwrite = .ok s := C01.print_total_on_default_stmt _ (by decide) (by decide) (by decide) (by decide)
+example : ∃ e, prStmt .ORACLE overwrite = .error e ∧ e.inFamily = true := refusal_in_family _ _ (by decide) (by decide) (by decide)
 
 /-- `SELECT a + 1 FROM t WHERE b IN (SELECT c FROM u)`: none of the constructs -/
 def plain : Stmt :=
